@@ -18,6 +18,9 @@ fn main() {
         eprintln!("usage: tcmc <property|selftest|replay> [--tier quick|thorough] [--replay file] [--budget secs]");
         std::process::exit(2);
     }
+    if args[0] == "worker-c17" {
+        std::process::exit(props::c17::worker(&args[1..]));
+    }
     if args[0] == "worker-c06" {
         std::process::exit(props::c06::worker(&args[1..]));
     }
